@@ -171,7 +171,7 @@ Qed.
 (* ------------------------------------------------------------------ dispatcher-side operations *)
 Inductive rx_dop (death : bool) : rx -> rx -> list Rx.wake -> Prop :=
 | RxFlush : forall r r' fr w, rx_flush r = (r', fr, w) -> rx_dop death r r' w
-| RxAdd : forall r k p off r' ar w, rx_add_remove r k p off = (r', ar, w) -> rx_dop death r r' w
+| RxAdd : forall r k p off r' ar w, 0 <= off -> rx_add_remove r k p off = (r', ar, w) -> rx_dop death r r' w
 | RxClose : forall r r' w, death = true -> rx_mark_vsock_closed r = (r', w) -> rx_dop death r r' w
 | RxErr : forall r r' w, death = true -> rx_enqueue_error r = (r', w) -> rx_dop death r r' w.
 
@@ -296,13 +296,14 @@ Proof.
   clearbody s2.
   destruct (ch_type (m_hdr m)); try exact F2.
   - (* ST_DATA *)
-    destruct (_ <? 0); [cbn [stR]; eapply rch_trans; [exact F2|]; unfold force_immediate_ack; same_leaf|].
+    destruct (_ <? 0) eqn:Eoff; [cbn [stR]; eapply rch_trans; [exact F2|]; unfold force_immediate_ack; same_leaf|].
     match goal with |- context [rx_add_remove (v_rx ?x)] => set (s3 := x) end.
     assert (F3 : rch s s3) by (eapply rch_trans; [exact F2|]; subst s3; same_leaf).
     clearbody s3.
+    match goal with |- context [rx_add_remove _ _ _ ?off] => assert (Hoff : 0 <= off) by lia end.
     destruct (rx_add_remove _ _ _ _) as [[rx1 ar] w] eqn:Ea.
     assert (F4 : rch s (add_wakes (set_rx s3 rx1) (rx_wakes w))).
-    { eapply rch_trans; [exact F3|]. apply add_wakes_rx_reach. eapply RxAdd; exact Ea. }
+    { eapply rch_trans; [exact F3|]. apply add_wakes_rx_reach. eapply RxAdd; [exact Hoff | exact Ea]. }
     set (s4 := add_wakes (set_rx s3 rx1) (rx_wakes w)) in *. clearbody s4.
     destruct ar as [r|]; [|exact I].
     destruct (add_err r); [exact F4|].
@@ -319,13 +320,15 @@ Proof.
     apply (stR_sbind rch rch_trans); [apply stf_strch, send_ack_txf|].
     intros s7 _. apply ReRefl.
   - (* ST_FIN *)
-    destruct (_ && _); [|cbn [stR]; eapply rch_trans; [exact F2|]; unfold force_immediate_ack; same_leaf].
+    destruct (_ && _) eqn:Eoff; [|cbn [stR]; eapply rch_trans; [exact F2|]; unfold force_immediate_ack; same_leaf].
     match goal with |- context [rx_add_remove (v_rx ?x)] => set (s4 := x) end.
     assert (F3 : rch s s4) by (eapply rch_trans; [exact F2|]; subst s4; unfold force_immediate_ack; same_leaf).
     clearbody s4.
+    match goal with |- context [rx_add_remove _ _ _ ?off] =>
+      assert (Hoff : 0 <= off) by (apply andb_true_iff in Eoff; destruct Eoff as [_ Eoff]; lia) end.
     destruct (rx_add_remove _ _ _ _) as [[rx1 ar] w] eqn:Ea.
     assert (F4 : rch s (add_wakes (set_rx s4 rx1) (rx_wakes w))).
-    { eapply rch_trans; [exact F3|]. apply add_wakes_rx_reach. eapply RxAdd; exact Ea. }
+    { eapply rch_trans; [exact F3|]. apply add_wakes_rx_reach. eapply RxAdd; [exact Hoff | exact Ea]. }
     set (s5 := add_wakes (set_rx s4 rx1) (rx_wakes w)) in *. clearbody s5.
     destruct ar as [r|]; [|exact I].
     destruct (add_err r); [exact F4|].
